@@ -7,6 +7,7 @@ From SV Require Import Fmt.VpkDir Fmt.VpkDirProofs Fmt.VpkDirV2 Fmt.VpkName Fmt.
 From SV Require Import Fmt.VpkArchName Fmt.VpkArchNameProofs SM.VpkRefine.
 From SV Require Import Fmt.VpkNullStr Fmt.VpkNullStrProofs SM.VpkNested SM.VpkNestedProofs SM.VpkApi SM.VpkApiProofs SM.VpkNestedMap SM.VpkNestedMapProofs
   SM.VpkNestedSim SM.VpkNestedWf SM.VpkPlace SM.VpkPlaceProofs SM.VpkPlaceTable SM.VpkPlaceTableProofs.
+From SV Require Import SM.VpkWriteOrder SM.VpkWriteOrderProofs SM.VpkListing SM.VpkListingProofs.
 From SV Require Import Fmt.VpkNameJoin Fmt.VpkNameJoinProofs Fmt.VpkDirProg Fmt.VpkDirProgProofs Fmt.VpkDirRead Fmt.VpkDirReadProofs.
 Import ListNotations.
 Open Scope N_scope.
@@ -112,4 +113,48 @@ Qed.
 Example c13_hyps_pinned :
   c13_hyps exit_table_pinned ex_cfg table_pinned rtable_pinned goc_pinned goc_pinned del_prog_pinned ncodec_pinned wprog_pinned rprog_pinned
            (SplitLast 46) gparts_pinned join_table_pinned (ex_ncfg (n_writer (ex_ncfg reader_rstrip))) = true.
+Proof. vm_compute. reflexivity. Qed.
+
+(** Round 5.  [rj] is the rejection table of FileInfo.write (the method executed with a read-only archive / an index out of range /
+    both: what raised, and what had been stored by then); [wn] / [wi] are the walks `filenames` / `fileinfos` perform for every combination
+    of (extension argument given?, folder argument given?).  Under the hypotheses of [c13_property_composed] and these: the OWrite step of
+    the state machine — the only place where the refinement proof uses "a rejected write changes nothing" — is the method run from the two
+    generated tables, a rejected write stores nothing, and the listing methods called with arguments list, in the order of the default
+    walk, exactly its entries with the extension whose folder name starts with the folder argument. *)
+Definition c13_hyps_r5 (et : list exit_row) (cf : vcfg) (pt : list prow) (rt : list rrow) (g1 g2 : goc) (prog : dprog) (nk : ncodec)
+  (wp : wprog) (rp : rprog) (sk : split_kind) (gp : gparts) (jt : list jrow) (nc : ncfg) (rj : list rejrow)
+  (wn wi : list (bool * bool * lwalk)) : bool :=
+  c13_hyps et cf pt rt g1 g2 prog nk wp rp sk gp jt nc && rej_table_ok rj && walks_ok wn && walks_ok wi.
+
+Theorem c13_property_r5_composed et cf pt rt g1 g2 prog nk wp rp sk gp jt nc rj wn wi :
+  c13_hyps_r5 et cf pt rt g1 g2 prog nk wp rp sk gp jt nc rj wn wi = true -> forall (crc : bytes -> N),
+  c13_hyps et cf pt rt g1 g2 prog nk wp rp sk gp jt nc = true
+  /\ (forall st k d ix,
+        step crc cf st (OWrite k d ix) =
+          match alookup k (tbl st) with
+          | None => Some (st, rMissing)
+          | Some i => match write_guarded_t rj pt crc cf st i d ix with
+                      | Some (st', i', c) => Some (if c =? rOk then with_tbl st' (aset k i' (tbl st')) else st', c)
+                      | None => None
+                      end
+          end)
+  /\ (forall st i d ix st' i' c, write_guarded_t rj pt crc cf st i d ix = Some (st', i', c) -> c <> rOk -> st' = st /\ i' = i)
+  /\ (forall eg fg w, In (eg, fg, w) (wn ++ wi) -> forall ext folder t, NoDup (map fst t) ->
+        list_walk w ext folder t = filter (listed eg fg ext folder) (flat_tree t)).
+Proof.
+  unfold c13_hyps_r5. intros H crc. apply andb_prop in H. destruct H as [H Hwi]. apply andb_prop in H. destruct H as [H Hwn].
+  apply andb_prop in H. destruct H as [H Hrj]. split; [exact H|].
+  unfold c13_hyps in H. do 13 (apply andb_prop in H; destruct H as [H ?]).
+  assert (Hchk : v_chk_idx cf = true) by (apply (vcfg_okb_inv cf); assumption).
+  split; [|split].
+  - intros st k d ix. apply step_write_is_guarded_tables; assumption.
+  - intros st i d ix st' i' c. apply (rejected_write_stores_nothing rj pt); assumption.
+  - intros eg fg w Hin. apply in_app_or in Hin. destruct Hin as [Hin|Hin].
+    + exact (walks_ok_lists_matching wn Hwn eg fg w Hin).
+    + exact (walks_ok_lists_matching wi Hwi eg fg w Hin).
+Qed.
+
+Example c13_hyps_r5_pinned :
+  c13_hyps_r5 exit_table_pinned ex_cfg table_pinned rtable_pinned goc_pinned goc_pinned del_prog_pinned ncodec_pinned wprog_pinned rprog_pinned
+           (SplitLast 46) gparts_pinned join_table_pinned (ex_ncfg (n_writer (ex_ncfg reader_rstrip))) rej_table_pinned walks_pinned walks_pinned = true.
 Proof. vm_compute. reflexivity. Qed.
